@@ -115,6 +115,21 @@ def check_eval2(ctx: Ctx, c: Dict[str, Any]) -> None:
             outK = B.evaluate_cubic_bspline(coeff, stride=s, size=tuple(m), kernel=kern, transpose=True)[0, 0]
             if tuple(outK.shape) != tuple(f.shape) or max_err(outK, f) > 2e-6 * scale:
                 ctx.violation(dict(op="evaluate_cubic_bspline", transpose=True, kernels="explicit", **sig0), f"2-D transposed evaluation with explicit per-axis kernels (stride={s}) differs", c)
+        # the same derivative through spatial_derivatives(mode='bspline'): the spline derivative per coefficient spacing, divided by the
+        # physical spacing of each axis once per derivative order along it
+        if d != [0, 0]:
+            import deepali.core.functional as U
+
+            code = "x" * d[0] + "y" * d[1]
+            full = B.evaluate_cubic_bspline(coeff, stride=s, derivative=d)
+            for hname, hh in (("none", None), ("unit", 1.0), ("scalar", 0.5), ("vector", (0.5, 2.0)), ("per-item", torch.tensor([[2.0, 0.25]], dtype=torch.float64))):
+                got = U.spatial_derivatives(coeff, mode="bspline", which=code, stride=s, spacing=hh)[code]
+                hv = [1.0, 1.0] if hh is None else ([float(hh)] * 2 if isinstance(hh, float) else [float(v) for v in torch.as_tensor(hh).reshape(-1)])
+                e = full / (hv[0] ** d[0] * hv[1] ** d[1])
+                if tuple(got.shape) != tuple(e.shape) or max_err(got, e) > 1e-9 * max(1.0, float(e.abs().max())):
+                    ctx.violation(dict(op="spatial_derivatives", spacing=hname, **sig0),
+                                  f"spatial_derivatives(mode='bspline', which='{code}', stride={s}, spacing={hname}:{hv}) differs from the spline derivative divided by spacing^order", c)
+                    break
         # free-form deformation: buffer u for these coefficients (x component)
         if d == [0, 0]:
             from deepali.core.grid import Grid
